@@ -281,7 +281,19 @@ func (S) RunTape(t *sim.Tape, st *sim.Stats, keepLog bool) *sim.Outcome {
 		var content []byte
 		switch c := t.Choice(10, "clen.class"); {
 		case i == bigKey:
-			content = t.Sub("content").Bytes(128<<10 + t.Choice(3, "clen.big.class")*(64<<10) + t.Choice(5000, "clen"))
+			// sizes at and around the powers of two and their multiples where chunked copies end
+			// (three bytes are appended below to make the content unique)
+			n := (128 << 10) * (1 + t.Choice(3, "clen.big.class"))
+			switch t.Choice(5, "clen.big.delta") {
+			case 0:
+				n--
+			case 1, 2:
+			case 3:
+				n++
+			default:
+				n += t.Choice(5000, "clen")
+			}
+			content = t.Sub("content").Bytes(n - 3)
 		case c == 0:
 			content = []byte{}
 		case c < 7:
